@@ -50,17 +50,19 @@ def build(name, sources, flags=None, compiler="clang++-14", sanitize="address,un
     out = os.path.join(bdir, "%s-%s" % (name, digest))
     if os.path.exists(out):
         return out, True
-    # drop stale binaries of the same harness
+    # drop stale binaries of the same harness (older than a day: other runs may be using recent ones)
+    import time
     for old in glob.glob(os.path.join(bdir, name + "-*")):
         try:
-            os.remove(old)
+            if time.time() - os.path.getmtime(old) > 86400:
+                os.remove(old)
         except OSError:
             pass
-    full = cmd + srcs + ["-o", out + ".tmp", "-pthread"] + list(libs or [])
+    full = cmd + srcs + ["-o", out + ".tmp%d" % os.getpid(), "-pthread"] + list(libs or [])
     p = subprocess.run(full, stdout=subprocess.PIPE, stderr=subprocess.STDOUT, text=True)
     if p.returncode != 0:
         raise BuildError("harness %s does not build against %s:\n%s" % (name, INCLUDE, p.stdout[-6000:]))
-    os.rename(out + ".tmp", out)
+    os.rename(out + ".tmp%d" % os.getpid(), out)
     return out, False
 
 
